@@ -7,9 +7,9 @@ from .modelcheck import run_property
 def run(tier, seed, verdict):
     quick = tier != "thorough"
     runs = [mr.ModelRun("MC_C19_quick.cfg" if quick else "MC_C19.cfg", seed, probes=("reopen", "stamps"),
-                        name_pools=[0, 2], stride=1 if quick else 6),
+                        name_pools=[0, 2], stride=3 if quick else 6),
             mr.ModelRun("MC_C19_links_q1.cfg" if quick else "MC_C19_links.cfg", seed + 1, probes=("stamps",), name_pools=[0], stride=1),
-            mr.ModelRun("MC_Sim.cfg", seed + 2, probes=(), name_pools=[0, 1], simulate="num=%d" % (25 if quick else 300), depth=30)]
+            mr.ModelRun("MC_Sim.cfg", seed + 2, probes=(), name_pools=[0, 1], simulate="num=%d" % (15 if quick else 300), depth=30)]
     level, cov, assumptions = run_property(
         "C19", verdict, runs, require_actions=("Tick:ok", "ToggleAuto:ok", "Force:ok", "SetAttr:ok"),
         tlc_props=["CreatedAtFixed", "UpdatedMonotone", "TimestampLocality", "NoAutoNoChange", "ListedAttrStamps"],
@@ -28,7 +28,7 @@ def run(tier, seed, verdict):
     # dimension descriptors and their links (NixDimLink): no call may move a timestamp while the switch is off
     from . import runner, dimlink, c05, core
     drun = runner.ExportRun("MC_NixDimLink", "MC_C05_dims_quick.cfg", seed, "harness.dimlink",
-                            opts={"ranks": c05.RANKS, "auto": False}, stride=6 if quick else 2,
+                            opts={"ranks": c05.RANKS, "auto": False}, stride=10 if quick else 2,
                             label=lambda tx: dimlink.klass(tx["act"]) + ":" + tx["act"]["out"]).run()
     for f in drun.findings:
         if f["owner"] == "C19":
